@@ -50,3 +50,43 @@ theorem treeReduce_eq_sum : ∀ (fuel : Nat) (l : List M), l ≠ [] → l.length
       obtain ⟨x, rfl⟩ := List.length_eq_one_iff.mp this
       simp
 #print axioms treeReduce_eq_sum
+
+/-- a fixed number of levels: what is left is `⌈n / 2^levels⌉` partial sums whose total is the total -/
+theorem treeReduce_levels : ∀ (fuel : Nat) (l : List M), l ≠ [] →
+    (treeReduce (· + ·) fuel l).length = (l.length + 2 ^ fuel - 1) / 2 ^ fuel ∧ (treeReduce (· + ·) fuel l).sum = l.sum
+  | 0, l, _ => by simp [treeReduce]
+  | fuel+1, l, hne => by
+    have hpos := List.length_pos_of_ne_nil hne
+    have ha : 0 < 2 ^ fuel := Nat.pos_of_ne_zero (by positivity)
+    unfold treeReduce
+    split_ifs with h
+    · have hne' : treeLevel (· + ·) l ≠ [] := by
+        intro h0; have := treeLevel_length l; rw [h0] at this; simp at this; omega
+      obtain ⟨h1, h2⟩ := treeReduce_levels fuel _ hne'
+      refine ⟨?_, by rw [h2, treeLevel_sum]⟩
+      rw [h1, treeLevel_length, pow_succ]
+      have : (l.length + 1) / 2 + 2 ^ fuel - 1 = (l.length + 2 ^ fuel * 2 - 1) / 2 := by omega
+      rw [this, Nat.div_div_eq_div_mul, Nat.mul_comm 2 (2 ^ fuel)]
+    · have h1 : l.length = 1 := by omega
+      refine ⟨?_, rfl⟩
+      rw [h1]
+      have : 1 + 2 ^ (fuel + 1) - 1 = 2 ^ (fuel + 1) := by omega
+      rw [this, Nat.div_self (Nat.pos_of_ne_zero (by positivity))]
+
+/-- the reduction ends with a single total exactly when there are enough levels: `n ≤ 2^levels` -/
+theorem treeReduce_single_iff (fuel : Nat) (l : List M) (hne : l ≠ []) :
+    (treeReduce (· + ·) fuel l).length = 1 ↔ l.length ≤ 2 ^ fuel := by
+  rw [(treeReduce_levels fuel l hne).1]
+  have hpos := List.length_pos_of_ne_nil hne
+  have ha : 0 < 2 ^ fuel := Nat.pos_of_ne_zero (by positivity)
+  constructor
+  · intro h
+    by_contra hc
+    push_neg at hc
+    have : 2 ≤ (l.length + 2 ^ fuel - 1) / 2 ^ fuel := by
+      rw [Nat.le_div_iff_mul_le ha]; omega
+    omega
+  · intro h
+    apply Nat.div_eq_of_lt_le
+    · omega
+    · omega
